@@ -8,9 +8,10 @@ symbolic.  Contract modelled:
   * DELETE FROM events cascades to tags (ON DELETE CASCADE, PRAGMA foreign_keys=ON);
   * a SELECT without ORDER BY returns rows in an unspecified order: `reverse_order` (a symbolic bool
     chosen by the obligation) flips it;
-  * `fail_at = k`: the k-th execute() raises OperationalError (fault injection).
+  * `fail_at = k`: the k-th execute() raises a sqlalchemy.exc.OperationalError subclass (fault injection).
 Raw-text statements (the garbage collector) are not interpreted (Unsupported).
 """
+import sqlalchemy.exc as _sa_exc
 import operator
 
 import sqlalchemy as sa
@@ -22,8 +23,12 @@ class Unsupported(Exception):
     pass
 
 
-class OperationalError(Exception):
-    pass
+class OperationalError(_sa_exc.OperationalError):
+    """the injected engine fault IS a sqlalchemy.exc.OperationalError (what a real driver error surfaces as), so that a
+    handler written against sa.exc.SQLAlchemyError sees it exactly as it would see a real one"""
+
+    def __init__(self, msg):
+        super().__init__(msg, None, Exception(msg))
 
 
 def _bind(x):
